@@ -149,6 +149,26 @@ prop("C06", "fault_enumeration",
                      "crash points are the statements the instrumenter recognises as durable steps (listed as crash:* classes in the evidence)",
                      "a crash inside the transfer of one part's bytes is represented by the crash points before and after the data copy"])
 
+prop("C19", "exploration",
+     "abstract configurations (1-4 sources x 0-3 tags; 16 source options and 7 tag options each absent / explicit non-zero / explicit zero-or-false; "
+     "optional target, include and ignore lists) rendered as YAML or JSON, parsed with sts.NewConf; oracle = inductive inheritance rule (absent -> "
+     "value of the preceding source / default tag, explicit -> as written) and parse(json.Marshal(parsed.Client)) having the same effective value for "
+     "every option; non-trivial = >= 2 sources or >= 2 tags with at least one absent and one explicit zero/false option",
+     [dict(pkg="confx", test="TestC19Conf", world="W0", quick=16000, thorough=600000,
+           required_classes=["multi-source", "format-yaml", "format-json"])],
+     ["spellings follow the repository's tests and MarshalJSON: in JSON sizes, durations, tri-state options and error-backoff are strings, counts numbers",
+      "the clause about a running sender applying tag settings to matching files needs the real binary and is not covered by this unit"])
+
+prop("C17", "exploration",
+     "generated directory trees (depth <= 4, hidden files and directories, .lck files, .disabled at root or below, empty files, absolute symlinks to files "
+     "and directories, files on both sides of the minimum age) scanned by store.Local with generated include / ignore sets, include-hidden, "
+     "follow-symlinks and a non-HTTP tag pattern; oracle = eligibility predicate written from the statement; non-trivial = a tree with eligible and "
+     "ineligible files where a pattern or the age decides",
+     [dict(pkg="storex", test="TestC17Scan", world="W0", quick=6000, thorough=200000, required_classes=["symlink-to-file", "disabled-at-root"])],
+     ["file ages are 5 min / 3 h against a minimum age of 0 / 2 h, so the wall clock cannot flip a verdict",
+      "for a symlink the statement does not say whose age counts; without link following the link's own time is used, with link following the target's",
+      "histories (rewrite, append, touch, replace during scans and transmission) and 'each version once' are not covered by this unit"])
+
 # ---------------------------------------------------------------------------
 # texts for MANIFEST.json (tools/mkmanifest.py)
 
@@ -226,5 +246,16 @@ MANIFEST_TEXT["C06"] = dict(
          "is frozen there, its directories copied, a fresh instance recovers (optionally crashing again), the sender's resumption is played and every "
          "file must end in exactly one legal condition, delivered exactly once.",
     note=STAGE_NOTE + " Pause points are inserted by harness/cmd/instrument at build time; with no hook armed the instrumented code is the original code.")
+
+MANIFEST_TEXT["C19"] = dict(
+    technique="property-based testing (rapid): generated configurations in YAML and JSON vs. an inductive inheritance oracle; parse -> JSON -> parse round trip",
+    text="Generated-configuration search for the inheritance and re-encoding clauses. Known finding: explicit numeric zeros are overridden. The clause "
+         "about the running sender applying each tag's settings to matching files is NOT decided by this check.",
+    note="Configuration documents are generated from an abstract model (option present / absent / explicit zero); parsed through sts.NewConf on temp files.")
+MANIFEST_TEXT["C17"] = dict(
+    technique="property-based testing (rapid): generated directory trees and filter settings vs. a reference eligibility predicate",
+    text="Decides the 'queued if and only if eligible' clause for a single scan of a generated tree. The history clauses (changed files sent again, "
+         "unchanged ones not, one complete version) are not decided by this unit.",
+    note="Real temp directories, real store.Local.Scan with the same allow callback shape as the sender (size > 0).")
 
 NOT_CLAIMED = {}
